@@ -278,7 +278,7 @@ func expKinds(r *refResult) string {
 
 // Watchdog -------------------------------------------------------------------
 
-const callLimit = 5 * time.Second
+const callLimit = 15 * time.Second
 
 // guard lets one worker goroutine run many calls cheaply under one watchdog:
 // the worker publishes the case it is about to run and bumps a heartbeat after
@@ -668,7 +668,7 @@ func main() {
 			"a pass-through exception ('name to itself', 'A', 'AAAA') met behind a CNAME may pass the whole request or only the canonical name to the upstream",
 			"several CNAME entries with different targets for one pattern: either may win, also depending on the order (a CNAME is single-valued, the documents define no winner)",
 			"on a CNAME cycle only termination, no addresses and a canonical name from the chain other than the queried name (or pass-through) are demanded",
-			"a call that does not return within 5 s is non-terminating (normal cost is microseconds)",
+			"a call that does not return within 15 s is non-terminating (normal cost is microseconds)",
 		},
 	})
 }
